@@ -93,6 +93,148 @@ fn on_demand() -> ExecResult {
     res
 }
 
+// ---------------------------------------------------------------------------------------------
+// Scenario B: handlers that use the object server
+// ---------------------------------------------------------------------------------------------
+
+struct H;
+
+#[zbus::interface(name = "a.b.H")]
+impl H {
+    async fn reg(&self, #[zbus(object_server)] server: &zbus::ObjectServer) -> zbus::fdo::Result<bool> {
+        server.at("/n1", Ping).await.map_err(|e| zbus::fdo::Error::Failed(e.to_string()))
+    }
+    async fn unreg(&self, #[zbus(object_server)] server: &zbus::ObjectServer) -> zbus::fdo::Result<bool> {
+        server
+            .remove::<Ping, _>("/n1")
+            .await
+            .map_err(|e| zbus::fdo::Error::Failed(e.to_string()))
+    }
+    async fn reg_mut(&mut self, #[zbus(object_server)] server: &zbus::ObjectServer) -> zbus::fdo::Result<bool> {
+        server.at("/n4", Ping).await.map_err(|e| zbus::fdo::Error::Failed(e.to_string()))
+    }
+    async fn emit(&self, #[zbus(signal_emitter)] e: zbus::object_server::SignalEmitter<'_>) -> zbus::fdo::Result<()> {
+        Self::sig(&e, 7).await.map_err(|e| zbus::fdo::Error::Failed(e.to_string()))
+    }
+    #[zbus(signal)]
+    async fn sig(e: &zbus::object_server::SignalEmitter<'_>, v: u32) -> zbus::Result<()>;
+
+    #[zbus(property)]
+    async fn pget(&self, #[zbus(object_server)] server: &zbus::ObjectServer) -> zbus::fdo::Result<u32> {
+        server
+            .at("/n2", Ping)
+            .await
+            .map(|_| 5)
+            .map_err(|e| zbus::fdo::Error::Failed(e.to_string()))
+    }
+    #[zbus(property)]
+    async fn pset(&self) -> u32 {
+        1
+    }
+    #[zbus(property)]
+    async fn set_pset(&mut self, _v: u32, #[zbus(object_server)] server: &zbus::ObjectServer) -> zbus::fdo::Result<()> {
+        server
+            .at("/n3", Ping)
+            .await
+            .map(|_| ())
+            .map_err(|e| zbus::fdo::Error::Failed(e.to_string()))
+    }
+}
+
+fn handler_calls(which: &'static str) -> ExecResult {
+    use zbus::zvariant::Value;
+    let mut w = World::new();
+    let link = Link::new();
+    let sock = link.end_a(SockCfg::default());
+    let conn = w
+        .complete("build", async move {
+            Builder::authenticated_socket(sock, GUID)
+                .unwrap()
+                .p2p()
+                .internal_executor(false)
+                .serve_at("/h", H)
+                .unwrap()
+                .build()
+                .await
+                .unwrap()
+        })
+        .expect("build");
+    let mc = |member: &str| {
+        zbus::Message::method_call("/h", member)
+            .unwrap()
+            .interface("a.b.H")
+            .unwrap()
+            .build(&())
+            .unwrap()
+    };
+    fn prop(member: &'static str) -> zbus::message::Builder<'static> {
+        zbus::Message::method_call("/h", member)
+            .unwrap()
+            .interface("org.freedesktop.DBus.Properties")
+            .unwrap()
+    }
+    let calls: Vec<zbus::Message> = match which {
+        "method-registers-object" => vec![mc("Reg")],
+        "method-registers-then-removes" => vec![mc("Reg"), mc("Unreg")],
+        "mut-method-registers-object" => vec![mc("RegMut")],
+        "method-emits-signal" => vec![mc("Emit")],
+        "property-getter-registers-object" => vec![prop("Get").build(&("a.b.H", "Pget")).unwrap()],
+        "property-setter-registers-object" => vec![prop("Set").build(&("a.b.H", "Pset", Value::from(5u32))).unwrap()],
+        "getall-getter-registers-object" => vec![prop("GetAll").build(&("a.b.H",)).unwrap()],
+        _ => unreachable!(),
+    };
+    let serials: Vec<_> = calls.iter().map(|c| c.primary_header().serial_num()).collect();
+    let mut next = 0;
+    loop {
+        let env = (next < calls.len()) as usize;
+        match w.step(env) {
+            Step::Ran(_) => {}
+            Step::Env(_) => {
+                link.b2a.push(&calls[next].data()[..], vec![]);
+                w.obs(format!("call {next} released"));
+                next += 1;
+            }
+            Step::Quiescent | Step::Horizon => break,
+        }
+    }
+    let out = link.a2b.written();
+    let (msgs, _) = split_messages(&out);
+    let mut replies = vec![0usize; calls.len()];
+    let mut kinds = vec![];
+    for r in msgs {
+        if let Ok(m) = parse_message(&out[r]) {
+            for (i, s) in serials.iter().enumerate() {
+                if m.header().reply_serial() == Some(*s) {
+                    replies[i] += 1;
+                    kinds.push(format!("{:?}:{}", m.message_type(), m.header().error_name().map(|e| e.to_string()).unwrap_or_default()));
+                }
+            }
+        }
+    }
+    w.obs(format!("replies={replies:?} {kinds:?}"));
+    let mut res = ExecResult {
+        capped: w.hit_horizon,
+        steps: w.steps,
+        ..Default::default()
+    };
+    if !w.hit_horizon {
+        for (i, n) in replies.iter().enumerate() {
+            if *n == 0 && i < next {
+                res.violations.push(
+                    v(
+                        "handler-does-not-deadlock",
+                        format!("{which}: call {i} was delivered, nothing is runnable any more, and it was never answered (deadlock); trace={:?}", w.trace),
+                    )
+                    .feat("handler", which),
+                );
+            }
+        }
+    }
+    res.log = std::mem::take(&mut w.log);
+    drop(conn);
+    res
+}
+
 pub fn main(args: &Args) -> i32 {
     let report = Report::new("C30", args.tier, args.seed, "model_checking");
     let totals = Mutex::new(Totals::default());
@@ -102,5 +244,17 @@ pub fn main(args: &Args) -> i32 {
         time_budget_s: args.tier.pick(20.0, 200.0),
     };
     run_scenario(&report, &totals, "on-demand", json!({}), &plan, on_demand);
+    for which in [
+        "method-registers-object",
+        "method-registers-then-removes",
+        "mut-method-registers-object",
+        "method-emits-signal",
+        "property-getter-registers-object",
+        "property-setter-registers-object",
+        "getall-getter-registers-object",
+    ] {
+        run_scenario(&report, &totals, which, json!({"handler": which}), &plan, move || handler_calls(which));
+    }
+    report.assume("interleaving granularity is one task poll; handlers run on the connection's own executor (single thread)");
     finish_model_checking(&report, &totals, "all schedules of the scenarios (task polls and environment events) by DFS with re-execution")
 }
